@@ -23,6 +23,7 @@ from hypothesis import strategies as st
 
 from vlib import urlref
 from vlib.core import Campaign, hyp_campaign
+from vlib import fuzz as F
 
 PROPERTY = "C18"
 RULE = ("every domain of the bundled lists (shorteners, should-resolve extras, YouTube domains) and the Facebook / "
@@ -304,8 +305,35 @@ def _strategy(tier):
         lambda v: {"kind": "site", "pred": v[0], "rest": v[1] + v[2] + v[3], "scheme": v[4], "variant": "random", "decoy": "@" in v[3] or "." in v[3] or bool(v[1])})
 
 
+PREDS = ["is_facebook_url", "is_twitter_url", "is_instagram_url", "is_telegram_url", "is_youtube_url", "is_shortened_url", "should_resolve"]
+_PROTO18 = re.compile(r"^[a-zA-Z]{0,64}:?//")
+
+
+def _fuzz_site(data):
+    if len(data) < 2:
+        return None
+    rest = F.text_from_bytes(data[1:])
+    if not rest or _PROTO18.match(rest) or any(c.isspace() or ord(c) < 0x20 or 0x7f <= ord(c) <= 0x9f for c in rest):
+        return None   # 'rest' is what follows the scheme: no protocol of its own, no whitespace / control characters
+    if not F.sane_url("http://" + rest):
+        return None
+    host = F._urlsplit("http://" + rest).hostname or ""
+    if "" in host.split("."):
+        return None   # empty labels (also the root label of a fully qualified name, which the domain lists do not spell): outside the domain
+    return {"kind": "site", "pred": PREDS[data[0] % len(PREDS)], "rest": rest, "scheme": ["http", "https", "HTTP"][(data[0] >> 3) % 3], "variant": "fuzz",
+            "decoy": "@" in rest or "?" in rest or "#" in rest}
+
+
+FUZZ_TARGETS = {"site": (_fuzz_site, lambda c: True, None)}
+FUZZ_DICT18 = ["facebook.com", "fb.me", "m.facebook.com", "facebook.co.uk", "twitter.com", "x.com", "instagram.com", "t.me", "telegram.me", "telegram.org", "youtube.com", "youtu.be",
+               "youtube.co.uk", "bit.ly", "t.co", "l.", "doi.org", "www.", ".evil.fr", "not", "@", ":", ":8080", "/", "/index.html", "/home", "/abc", "?", "#", "user:pw@", ".", "-", "xn--"]
+
+
 def campaigns(tier, seed):
     return [
+        Campaign("sites-coverage-guided", F.fuzz_campaign("site", runs=(2500, 150000), max_len=64, dictionary=FUZZ_DICT18,
+                                                          corpus=["\x00www.facebook.com/zuck", "\x0cbit.ly/abc", "\x05user:pw@t.me/s/x?y#z", "\x04m.youtube.co.uk:8080/watch?v=1"]), F.ENGINE,
+                 bounds="libFuzzer over 1 selector byte + a UTF-8 string <= 63 bytes taken as everything after the scheme (sane host, no whitespace); 7 predicates x 4 forms"),
         Campaign("pattern-sites", _enum_patterns, "enumeration", exhaustive=True,
                  bounds="Facebook/Twitter/Instagram/Telegram domains x 10 host variants x 10 paths x userinfo/path/query/fragment decoys x 3 schemes x 4 forms"),
         Campaign("bundled-lists", _enum_lists, "enumeration", exhaustive=True,
